@@ -511,3 +511,41 @@ T("C02", "bool-array-count-negated", LX, '            return _type.encode(value,
 # D8.6 (= D6.6 obligations under C08)
 M("C08", "bits-too-few-silent", DT, "if len(values) < _length * chunk_size:", "if len(values) < _length:", ["D8.6"])
 M("C08", "open-partial-silent", DT, "                    if len(values) % chunk_size:\n                        raise DataError(\n                            f\"Number of values must be a multiple of {chunk_size} for arrays of {cls.element_type}\"\n                        )\n", "", ["D8.6"])
+
+# D12.3 accumulator form of the completion loop
+T("C12", "countdown-received", SOCK, "            while len(data) - HEADER_SIZE < data_len:\n                data += self._recv(256)", "            remaining = HEADER_SIZE + data_len - len(data)\n            while remaining > 0:\n                chunk = self._recv(min(remaining, 256))\n                data += chunk\n                remaining -= len(chunk)")
+M("C12", "countdown-requested", SOCK, "            while len(data) - HEADER_SIZE < data_len:\n                data += self._recv(256)", "            remaining = HEADER_SIZE + data_len - len(data)\n            while remaining > 0:\n                size = min(remaining, 256)\n                data += self._recv(size)\n                remaining -= size", ["D12.3"])
+M("C12", "countdown-from-body-only", SOCK, "            while len(data) - HEADER_SIZE < data_len:\n                data += self._recv(256)", "            remaining = data_len\n            while remaining > 0:\n                chunk = self._recv(min(remaining, 256))\n                data += chunk\n                remaining -= len(chunk)", ["D12.3"])
+
+# D19.6 / D7.5 get_type folded per code
+M("C19", "get-type-falsy-guard", DT, "        return cls.get(cls.get(type_code))", "        if not type_code:\n            return None\n        return cls.get(cls.get(type_code))", ["D19.6"])
+M("C19", "get-type-name-only", DT, "        return cls.get(cls.get(type_code))", "        return cls.get(type_code)", ["D19.6"])
+T("C19", "get-type-none-guard", DT, "        return cls.get(cls.get(type_code))", "        if type_code is None:\n            return None\n        name = cls.get(type_code)\n        return cls.get(name) if name is not None else None")
+M("C07", "get-type-falsy-guard", DT, "        return cls.get(cls.get(type_code))", "        if not type_code:\n            return None\n        return cls.get(cls.get(type_code))", ["D7.5"])
+T("C07", "get-type-two-steps", DT, "        return cls.get(cls.get(type_code))", "        name = cls.get(type_code)\n        return cls.get(name)")
+
+# D16.2 witness evaluation of the identity post-processing
+_ID_OLD_M = '        values = super(ModuleIdentityObject, cls)._decode(stream)\n        values["product_type"] = PRODUCT_TYPES.get(values["product_type"], "UNKNOWN")\n        values["vendor"] = VENDORS.get(values["vendor"], "UNKNOWN")\n        values["serial"] = f"{values[\'serial\']:08x}"\n\n        return values\n'
+_ID_OLD_L = '        values = super(ListIdentityObject, cls)._decode(stream)\n        values["product_type"] = PRODUCT_TYPES.get(values["product_type"], "UNKNOWN")\n        values["vendor"] = VENDORS.get(values["vendor"], "UNKNOWN")\n        values["serial"] = f"{values[\'serial\']:08x}"\n\n        return values\n'
+_ID_HELPER_OK = 'def _identity_names(values):\n    for attr, names in (("product_type", PRODUCT_TYPES), ("vendor", VENDORS)):\n        values[attr] = names.get(values[attr], "UNKNOWN")\n    values["serial"] = f"{values[\'serial\']:08x}"\n    return values\n\n\nclass ModuleIdentityObject('
+_ID_HELPER_BAD = 'def _identity_names(values):\n    for attr, names in (("product_type", PRODUCT_TYPES), ("vendor", VENDORS)):\n        _id = values[attr]\n        values[attr] = names.get(_id, "UNKNOWN") if _id else "UNKNOWN"\n    values["serial"] = f"{values[\'serial\']:08x}"\n    return values\n\n\nclass ModuleIdentityObject('
+T("C16", "identity-helper", CT, _ID_OLD_M, "        values = super(ModuleIdentityObject, cls)._decode(stream)\n        return _identity_names(values)\n",
+  more=[(CT, _ID_OLD_L, "        values = super(ListIdentityObject, cls)._decode(stream)\n        return _identity_names(values)\n"), (CT, "class ModuleIdentityObject(", _ID_HELPER_OK)])
+M("C16", "identity-helper-zero-id", CT, _ID_OLD_M, "        values = super(ModuleIdentityObject, cls)._decode(stream)\n        return _identity_names(values)\n", ["D16.2"],
+  more=[(CT, _ID_OLD_L, "        values = super(ListIdentityObject, cls)._decode(stream)\n        return _identity_names(values)\n"), (CT, "class ModuleIdentityObject(", _ID_HELPER_BAD)])
+M("C16", "serial-no-leading-zeros", CT, _ID_OLD_L, _ID_OLD_L.replace(":08x}", ":x}"), ["D16.2"])
+M("C16", "vendor-default-none", CT, _ID_OLD_L, _ID_OLD_L.replace('VENDORS.get(values["vendor"], "UNKNOWN")', 'VENDORS.get(values["vendor"])'), ["D16.2"])
+
+# D5.10 prefix stripping on witnesses
+M("C05", "lstrip-program", LX, 'prog_name = name.replace("Program:", "")', 'prog_name = name.lstrip("Program:")', ["D5.10"])
+M("C05", "task-slice-short", LX, 'self._info["tasks"][name.replace("Task:", "")] = {', 'self._info["tasks"][name[4:]] = {', ["D5.10"])
+T("C05", "routine-slice-len", LX, 'rtn_name = name.replace("Routine:", "")', 'rtn_name = name[len("Routine:"):]')
+T("C05", "program-split", LX, 'prog_name = name.replace("Program:", "")', 'prog_name = name.split(":", 1)[1]')
+T("C05", "task-removeprefix", LX, 'self._info["tasks"][name.replace("Task:", "")] = {', 'self._info["tasks"][name.removeprefix("Task:")] = {')
+
+# D18.10 case-twin invariance
+M("C18", "io-filenumber-case", SLC, '        file_number = "0" if t.group("file_type").upper() == "O" else "1"', '        file_number = "0" if t.group("file_type") == "O" else "1"', ["D18.10"])
+M("C18", "ct-subelement-case", SLC, '"sub_element": PCCC_CT[t.group("sub_element").upper()],', '"sub_element": PCCC_CT.get(t.group("sub_element"), 0),', ["D18.10"])
+M("C18", "lfbn-filetype-raw", SLC, '                return {\n                    "file_type": t.group("file_type").upper(),\n                    "file_number": t.group("file_number"),\n                    "element_number": t.group("element_number"),\n                    "sub_element": t.group("sub_element"),\n                    "address_field": 3,', '                return {\n                    "file_type": t.group("file_type"),\n                    "file_number": t.group("file_number"),\n                    "element_number": t.group("element_number"),\n                    "sub_element": t.group("sub_element"),\n                    "address_field": 3,', ["D18.10"])
+T("C18", "io-filenumber-lower", SLC, '        file_number = "0" if t.group("file_type").upper() == "O" else "1"', '        file_number = "0" if t.group("file_type").lower() == "o" else "1"')
+T("C18", "io-filenumber-in", SLC, '        file_number = "0" if t.group("file_type").upper() == "O" else "1"', '        file_number = "0" if t.group("file_type") in ("O", "o") else "1"')
